@@ -20,20 +20,11 @@ open Generated
 
 theorem dec_eq (a b : ℕ) : (dec a b : ℝ) = (a : ℝ) / (b : ℝ) := rfl
 
-/-! ### C15: exact failure -/
+/-! ### C16: element mass -/
 
-theorem failureExact_eq (vm sigma : ℝ) : F.failureExact vm sigma = failureExact sigma vm := by
-  simp only [F.failureExact, failureExact]; norm_num
-
-/-- `SectionPropertiesTube`: the four section properties are the code's four lines applied to the code's `r1`, `r2` -/
-theorem tube_section (r th : ℝ) :
-    sectionPropertiesTube r th
-      = (F.tube_A Real.pi r (F.tube_r1 r th), F.tube_Iy Real.pi r (F.tube_r1 r th), F.tube_Iz Real.pi r (F.tube_r1 r th),
-         F.tube_J Real.pi r (F.tube_r1 r th)) := by
-  simp only [sectionPropertiesTube, F.tube_A, F.tube_Iy, F.tube_Iz, F.tube_J, F.tube_r1, dec_eq, elem_pi, Prod.mk.injEq]
-  refine ⟨?_, ?_, ?_, ?_⟩ <;> first | rfl | (norm_num; ring) | ring | norm_num
-
-theorem nonIntersecting (th r : ℝ) : F.nit th r = nonIntersectingThickness th r := rfl
+theorem element_mass_eq (mrho wwr : ℝ) (nodes : Pts ℝ) (A : ℕ → ℝ) (e : ℕ) :
+    F.weight_element_mass (elemLength nodes e * A e) mrho wwr = elementMass mrho wwr nodes A e := by
+  simp only [F.weight_element_mass, elementMass]
 
 end Formulas
 end OAS
